@@ -247,6 +247,29 @@ def gs (c : List String) (impl : List String) : String :=
     verdict (joinWith " " impl == out) spec out
   | _, _, _, _, _, _, _, _ => "E E bad-case"
 
+/-! ### real SIGTERM to the real binary -/
+
+def rs (c : List String) (impl : List String) : String :=
+  match kv c "proto", kv c "phase", kvNat c "hold" with
+  | some proto, some phase, some hold =>
+    let drainTicks := (Gen.Shutdown.drainDefaultMs / Gen.Shutdown.drainSleepMs).toNat
+    -- SIGTERM: the graceful-stop stage sets GracefulStopping before app.Shutdown (stage manager model)
+    let sm := smRun (smInit false) ((List.replicate Gen.Shutdown.runSeq.length (SMEv.boot none false false)) ++
+      [SMEv.notice ((Gen.Shutdown.signalActions.find? (fun p => p.1 == "SIGTERM")).map (·.2) |>.getD (-1)) none false, SMEv.mainStop false])
+    let stage := if sm.calls.contains "shutdown@8" then Gen.Shutdown.GracefulStopping else Gen.Shutdown.Running
+    let graceful := sm.calls.any (fun x => x.startsWith "shutdown@")
+    let s := gsModel proto stage phase 1 drainTicks hold
+    let exitFirst := !graceful || s.exited
+    let (_, refuseNew, _) := traits proto
+    let req := if !exitFirst then "ok"
+      else if refuseNew && (s.conns[0]?).map (fun k => decide (k.notified > 0 && k.phase != Phase.active)) == some true then "retry"
+      else "fail"
+    let out := s!"req={req} exitfirst={if exitFirst then 1 else 0} exit={sm.exit.getD (-1)} after={probeResult s.lis}"
+    let g (k : String) := (kv impl k).getD "?"
+    let spec := (g "req" == "ok" || (proto == "h2" && phase == "hdr" && g "req" == "retry")) && g "exit" == "0" && g "after" == "ref"
+    verdict (joinWith " " impl == out) spec out
+  | _, _, _ => "E E bad-case"
+
 /-! ### hot-upgrade hand-over in one process -/
 
 def up (c : List String) (impl : List String) : String :=
@@ -284,6 +307,7 @@ def run (caseToks impl : List String) : String :=
   | ["sm", f, a] => sm f a impl
   | "gs" :: c => gs c impl
   | "up" :: c => up c impl
+  | "rs" :: c => rs c impl
   | _ => "E E unknown-kind"
 
 end MosnVerif.Drive.C11
